@@ -106,7 +106,7 @@ StrAcc(mj, buf, p) ==
    IF h.st = "eoi" THEN
       (IF p >= Len(buf) \/ Major(At(buf, p)) = mj THEN {Err("eoi")} ELSE {Err("*")})
    ELSE IF h.st = "ok" /\ h.major = mj /\ ~h.indef THEN
-      IF ~IsSmall(h.arg) \/ p + h.hl + ToNat(h.arg) > Len(buf) THEN
+      IF ~IsSmall(h.arg) \/ ToNat(h.arg) > Len(buf) - p - h.hl THEN
          \* cut inside the payload: a strict prefix of a valid encoding iff the text so far can still become valid
          (IF mj = 2 \/ Utf8Prefix(SubSeq(buf, p + h.hl + 1, Len(buf))) THEN {Err("eoi")} ELSE {Err("*")})
       ELSE LET n == ToNat(h.arg) IN
